@@ -83,6 +83,9 @@ where
         let mid_idx: usize =
             cast(mid).unwrap_or_else(|| unimplemented!("failed to convert {mid:?} to usize"));
 
+        #[cfg(ndarray_interp_verif)]
+        crate::verif::record_guess(mid_idx);
+
         let mid_x = self[mid_idx];
 
         if mid_x <= x && x < self[mid_idx + 1] {
